@@ -363,6 +363,10 @@ def _tree(case, ctx, op):
         cls = call["class_node"] % n
         if typ == "tan" and (cls == root or n < 3):
             continue
+        if typ == "tan" and wkind == "normalized_mutual_info":
+            # sklearn defines NMI = 1 for two constant labelings, which occurs inside class-conditional subsets; the stated
+            # property is about (strictly positive) mutual-information weights
+            wkind = "mutual_info"
         if typ == "tan" and len({r[cls] for r in rows}) < card[cls]:
             ctx.probe("tan_skipped_unobserved_class_state")
             continue  # outside the stated property (Chow-Liu); TAN on a class column with an unobserved declared category fails inside sklearn
